@@ -18,13 +18,39 @@ START_TS = 1_609_459_200_000   # 2021-01-01T00:00:00Z, aligned to every timefram
 
 
 # ---------------------------------------------------------------------------- spec generation
+SYMBOL_POOL = ['DOT-USDT', 'EOS-USDT', 'SOL-USDT', '1INCH-USDT', 'LTC-USDT', 'SUSHI-USDT', 'BTC-USDT', 'ETH-USDT']
+REAL_NAMES = {'futures': ['Bybit USDT Perpetual', 'Binance Perpetual Futures', 'Gate USDT Perpetual'],
+              'spot': ['Binance Spot', 'Bybit Spot', 'Coinbase Spot']}
+
+
+def pick_symbols(st, pf=None):
+    """two distinct symbols of one quote currency: the usual pair in 70 % of the specs, otherwise other names
+    (helpers that take a symbol apart must not care what the base asset is called)"""
+    if (pf or {}).get('symbols'):
+        return list(pf['symbols'])
+    if st.chance(0.7, 'usual_pair'):
+        return ['BTC-USDT', 'ETH-USDT']
+    a = st.choice(SYMBOL_POOL, 'sym_a')
+    b = st.choice([x for x in SYMBOL_POOL if x != a], 'sym_b')
+    return [a, b]
+
+
+def pick_exchange_name(st, ex_type):
+    """an invented name in 75 % of the specs, otherwise the name of an exchange the framework knows (for which it
+    holds defaults such as a list fee that must not leak into a session that configures its own)"""
+    if st.chance(0.75, 'invented_name'):
+        return 'Sim Spot' if ex_type == 'spot' else 'Sim Futures'
+    return st.choice(REAL_NAMES[ex_type], 'real_name')
+
+
 def gen_spec(seed: int, profile: dict = None) -> dict:
     """One seed -> one explicit session spec (JSON-able except numpy candle arrays)."""
     pf = dict(profile or {})
     st = Stream(seed, 'cfg')
     ex_type = pf.get('type') or st.choice(['futures', 'futures', 'spot'], 'type')
     n_routes = pf.get('n_routes') or st.wchoice([(1, 0.7), (2, 0.3)], 'n_routes')
-    syms = ['BTC-USDT', 'ETH-USDT'][:n_routes]
+    pair = pick_symbols(st, pf)
+    syms = pair[:n_routes]
     tfs_pool = pf.get('trading_tfs') or ['1m', '1m', '3m', '5m', '15m']
     routes = []
     for i, s in enumerate(syms):
@@ -39,7 +65,7 @@ def gen_spec(seed: int, profile: dict = None) -> dict:
             if tf != routes[i]['timeframe']:
                 data_routes.append({'symbol': s, 'timeframe': tf})
     if n_routes == 1 and pf.get('allow_data_symbol', True) and st.chance(0.15, 'dr_other'):
-        data_routes.append({'symbol': 'ETH-USDT', 'timeframe': st.choice(dr_pool, 'drtf_o')})
+        data_routes.append({'symbol': pair[1], 'timeframe': st.choice(dr_pool, 'drtf_o')})
     all_tfs = [r['timeframe'] for r in routes] + [r['timeframe'] for r in data_routes]
     fast = pf['fast'] if 'fast' in pf else st.chance(0.5, 'fast')
     chunk = int(np.gcd.reduce([TF_MIN[t] for t in all_tfs]))
@@ -68,7 +94,7 @@ def gen_spec(seed: int, profile: dict = None) -> dict:
     spec = {
         'kind': 'session',
         'seed': seed,
-        'exchange': pf.get('exchange') or ('Sim Spot' if ex_type == 'spot' else 'Sim Futures'),
+        'exchange': pf.get('exchange') or pick_exchange_name(st, ex_type),
         'type': ex_type,
         'leverage': pf.get('leverage') or st.choice([1, 2, 3, 5, 10, 20, 50, 100, 125], 'lev'),
         'mode': pf.get('mode') or st.choice(['cross', 'cross', 'isolated'], 'mode'),
